@@ -28,6 +28,7 @@ deriving Repr, DecidableEq
 inductive Leaf
   | image (l r : Nat)               -- mj-image without width: l / r = its horizontal padding plus border, per side
   | divider (l r : Nat)
+  | dividerP (l r a b : Nat)        -- mj-divider with the percentage width `a/b` % (37.5% = 75/2)
   | imageW (l r w : Nat)            -- mj-image with an explicit pixel width `w`
   | carousel                        -- mj-carousel: its images are as wide as the container
   | other
@@ -75,9 +76,14 @@ def colContent (px : Int) (e : Edges) : Int := if px - (e.total : Int) < 0 then 
 /-- the container an image / divider sees: a component whose container width is not positive falls back to 600 -/
 def leafContainer (c : Int) : Int := if c ≤ 0 then 600 else c
 
+/-- `int(float64(avail) * p / 100)` for the percentage `p = a/b`: truncation towards zero -/
+def pctOf (avail : Int) (a b : Nat) : Int :=
+  if avail < 0 then -(fl (-avail * (a : Int)) (100 * b)) else fl (avail * (a : Int)) (100 * b)
+
 def leafW (c : Int) : Leaf → Option Int
   | .image l r => some (if leafContainer c - ((l + r : Nat) : Int) ≤ 0 then leafContainer c else leafContainer c - ((l + r : Nat) : Int))
   | .divider l r => some (leafContainer c - ((l + r : Nat) : Int))
+  | .dividerP l r a b => some (pctOf (leafContainer c - ((l + r : Nat) : Int)) a b)
   | .imageW l r w =>
     let avail := if leafContainer c - ((l + r : Nat) : Int) ≤ 0 then leafContainer c else leafContainer c - ((l + r : Nat) : Int)
     some (if (w : Int) < avail then (w : Int) else avail)        -- never wider than what is left after padding
@@ -156,6 +162,7 @@ def specW (box : Q) (k : Nat) : ColW → Q
 def specLeaf (c : Q) : Leaf → Option Q
   | .image l r => some (c.sub (l + r))
   | .divider l r => some (c.sub (l + r))
+  | .dividerP l r a b => some ((c.sub (l + r)).1 * (a : Int), (c.sub (l + r)).2 * (100 * b))
   | .imageW l r w => some (if (w : Int) * (c.2 : Int) < (c.sub (l + r)).1 then ((w : Int), 1) else c.sub (l + r))
   | .carousel => some c
   | .other => none
@@ -283,14 +290,65 @@ theorem colContent_le (px : Int) (e : Edges) : colContent px e ≤ px := by unfo
 theorem colContent_exact (px : Int) (e : Edges) (h : 0 ≤ px - (e.total : Int)) : colContent px e = px - (e.total : Int) := by
   unfold colContent; split <;> omega
 
-theorem leaf_le (c : Int) (lf : Leaf) (x : Int) (hc : 0 < c) (h : leafW c lf = some x) : x ≤ c := by
+theorem pct_le (box : Int) (a b : Nat) (hb : 0 ≤ box) (h : a ≤ 100 * b) : box * (a : Int) ≤ box * ((100 * b : Nat) : Int) :=
+  Int.mul_le_mul_of_nonneg_left (Int.ofNat_le.mpr h) hb
+
+/-- a leaf that asks for no more than the whole of what is left: a divider's percentage is at most 100 -/
+def Leaf.Sane : Leaf → Prop
+  | .dividerP _ _ a b => 0 < b ∧ a ≤ 100 * b
+  | _ => True
+
+instance : DecidablePred Leaf.Sane := fun lf => by cases lf <;> unfold Leaf.Sane <;> exact inferInstance
+
+theorem pctOf_le (avail : Int) (a b : Nat) (hb : 0 < b) (hab : a ≤ 100 * b) : pctOf avail a b ≤ max avail 0 := by
+  unfold pctOf
+  split
+  · rename_i hneg
+    have h0 : 0 ≤ fl (-avail * (a : Int)) (100 * b) := fl_nonneg _ _ (Int.mul_nonneg (by omega) (Int.natCast_nonneg a))
+    omega
+  · rename_i hpos
+    have hav : 0 ≤ avail := by omega
+    have := fl_le (avail * (a : Int)) avail (100 * b) (by omega) (pct_le avail a b hav hab)
+    omega
+
+theorem pctOf_nonneg (avail : Int) (a b : Nat) (h : 0 ≤ avail) : 0 ≤ pctOf avail a b := by
+  unfold pctOf
+  split
+  · omega
+  · exact fl_nonneg _ _ (Int.mul_nonneg h (Int.natCast_nonneg a))
+
+theorem leaf_le (c : Int) (lf : Leaf) (x : Int) (hc : 0 < c) (hs : lf.Sane) (h : leafW c lf = some x) : x ≤ c := by
   have hl : leafContainer c = c := by unfold leafContainer; split <;> omega
   cases lf with
   | image l r => simp only [leafW, Option.some.injEq, hl] at h; subst h; split <;> omega
   | divider l r => simp only [leafW, Option.some.injEq, hl] at h; subst h; omega
+  | dividerP l r a b =>
+    simp only [leafW, Option.some.injEq, hl] at h; subst h
+    obtain ⟨hb, hab⟩ := hs
+    have := pctOf_le (c - ((l + r : Nat) : Int)) a b hb hab
+    omega
   | imageW l r w => simp only [leafW, Option.some.injEq, hl] at h; subst h; split <;> split <;> omega
   | carousel => simp only [leafW, Option.some.injEq, hl] at h; omega
   | other => simp [leafW] at h
+
+/-- a divider with a percentage width gets that percentage of the space left after padding, to within the pixel lost by
+    cutting to a whole number: `100·b·x ≤ avail·a < 100·b·(x+1)` -/
+theorem leaf_pct (c : Int) (l r a b : Nat) (x : Int) (hc : 0 < c) (hb : 0 < b) (h : leafW c (.dividerP l r a b) = some x)
+    (hp : 0 ≤ c - ((l + r : Nat) : Int)) :
+    ((100 * b : Nat) : Int) * x ≤ (c - ((l + r : Nat) : Int)) * (a : Int) ∧
+    (c - ((l + r : Nat) : Int)) * (a : Int) < ((100 * b : Nat) : Int) * (x + 1) := by
+  have hl : leafContainer c = c := by unfold leafContainer; split <;> omega
+  simp only [leafW, Option.some.injEq, hl] at h; subst h
+  unfold pctOf
+  rw [if_neg (by omega)]
+  obtain ⟨h1, h2, h3⟩ := divmod ((c - ((l + r : Nat) : Int)) * (a : Int)) (100 * b) (by omega)
+  unfold fl
+  generalize (c - ((l + r : Nat) : Int)) * (a : Int) = n at h1 h2 h3 ⊢
+  generalize ((100 * b : Nat) : Int) = D at h1 h2 h3 ⊢
+  generalize hq : n / D = q at h1 ⊢
+  rw [Int.mul_add, Int.mul_one]
+  generalize D * q = m at h1 ⊢
+  omega
 
 /-- images and dividers without an explicit width fill exactly the space left after padding -/
 theorem leaf_exact (c : Int) (l r : Nat) (lf : Leaf) (hlf : lf = .image l r ∨ lf = .divider l r) (x : Int) (hc : 0 < c)
@@ -316,9 +374,6 @@ def ColW.Sane : ColW → Prop
   | .px _ => False
 
 instance : DecidablePred ColW.Sane := fun w => by cases w <;> unfold ColW.Sane <;> exact inferInstance
-
-theorem pct_le (box : Int) (a b : Nat) (hb : 0 ≤ box) (h : a ≤ 100 * b) : box * (a : Int) ≤ box * ((100 * b : Nat) : Int) :=
-  Int.mul_le_mul_of_nonneg_left (Int.ofNat_le.mpr h) hb
 
 theorem self_le_mul (box : Int) (k : Nat) (hb : 0 ≤ box) (hk : 0 < k) : box ≤ box * (k : Int) := by
   have h1 : (1 : Int) ≤ (k : Int) := Int.ofNat_le.mpr hk
@@ -374,18 +429,18 @@ def ItemOut.Fits (box : Int) : ItemOut → Prop
   | .group g cols => g ≤ box ∧ ∀ o ∈ cols, o.Fits g
 
 def Item.Sane : Item → Prop
-  | .col c => c.w.Sane
-  | .group w cols => w.Sane ∧ ∀ c ∈ cols, c.w.Sane
+  | .col c => c.w.Sane ∧ c.leaf.Sane
+  | .group w cols => w.Sane ∧ ∀ c ∈ cols, c.w.Sane ∧ c.leaf.Sane
 
-theorem colOut_fits (px parent : Int) (c : Col) (h : px ≤ parent) : (colOut px c).Fits parent :=
-  ⟨h, colContent_le px c.e, fun x hc hx => leaf_le _ c.leaf x hc hx⟩
+theorem colOut_fits (px parent : Int) (c : Col) (h : px ≤ parent) (hl : c.leaf.Sane) : (colOut px c).Fits parent :=
+  ⟨h, colContent_le px c.e, fun x hc hx => leaf_le _ c.leaf x hc hl hx⟩
 
 /-- nesting below a section: every column (directly in the section or inside a group) is at most its parent's box, a
     column's content box at most the column, an image / divider at most that content box -/
 theorem itemOut_fits (box : Int) (k : Nat) (it : Item) (hb : 0 ≤ box) (hk : 0 < k) (hs : it.Sane) :
     (itemOut box k it).Fits box := by
   cases it with
-  | col c => exact colOut_fits _ box c (colPx_le_box box k c.w hb hk hs)
+  | col c => exact colOut_fits _ box c (colPx_le_box box k c.w hb hk hs.1) hs.2
   | group w cols =>
     obtain ⟨hw, hc⟩ := hs
     refine ⟨groupPx_le_box box k w hb hk hw, ?_⟩
@@ -393,7 +448,7 @@ theorem itemOut_fits (box : Int) (k : Nat) (it : Item) (hb : 0 ≤ box) (hk : 0 
     simp only [itemOut, List.mem_map] at ho
     obtain ⟨c, hcm, rfl⟩ := ho
     have hm : 0 < cols.length := List.length_pos_of_mem hcm
-    exact colOut_fits _ _ c (groupChildPx_le _ cols.length c.w (groupPx_nonneg box k w hb hw) hm (hc c hcm))
+    exact colOut_fits _ _ c (groupChildPx_le _ cols.length c.w (groupPx_nonneg box k w hb hw) hm (hc c hcm).1) (hc c hcm).2
 
 /-- sibling columns over a common denominator: their rounded widths exceed the exact sum by at most half a pixel each -/
 theorem rounded_sum_le (D : Nat) (hD : 0 < D) : ∀ ns : List Int,
